@@ -40,6 +40,8 @@ pub struct Registry {
     /// builder L: statements the unit keeps abstract: (needle in the statement's source, Lean function,
     /// expressions read, variables written)
     pub abstract_stmts: Vec<(String, String, Vec<String>, Vec<String>)>,
+    /// builder N: "Enum::Variant" -> field names of a struct-like variant (types are in `enum_data`)
+    pub enum_named: HashMap<String, Vec<String>>,
 }
 
 pub fn int_ty(name: &str) -> Option<&'static str> {
@@ -480,6 +482,9 @@ impl<'a> FnTr<'a> {
                             if ["trace", "debug", "info", "warn", "error", "debug_assert"].contains(&name.as_str()) {
                                 continue;
                             }
+                            if ["unreachable", "panic", "unimplemented", "todo"].contains(&name.as_str()) {
+                                return Ok(Seq { stmts: st, tail: Tail::Panic });
+                            }
                             return Err(format!("unsupported macro {}", name));
                         }
                         _ => return Err(format!("unsupported statement: {}", quote::quote!(#e))),
@@ -559,6 +564,8 @@ impl<'a> FnTr<'a> {
                 s.tail = Tail::Val(tuple.to_string());
                 Ok(s)
             }
+            // builder N: a branch that panics
+            Tail::Panic => Ok(s),
             _ => Err("a branch of a statement-level if/match leaves the function or has a value".into()),
         }
     }
@@ -1072,6 +1079,23 @@ impl<'a> FnTr<'a> {
             self.ret = saved;
             return Ok((Seq { stmts: st, tail: Tail::Val("()".into()) }, Ty::Unit));
         }
+        // builder N: `if c { panic!(..) }` before the value: `if c then none else <rest of the block>`
+        for (i, s0) in stmts[..n - 1].iter().enumerate() {
+            if let Stmt::Expr(Expr::If(ei), _) = s0 {
+                let panics = matches!(ei.then_branch.stmts.last(), Some(Stmt::Macro(m)) if ["unreachable", "panic"].contains(&path_str(&m.mac.path).as_str()))
+                    || matches!(ei.then_branch.stmts.last(), Some(Stmt::Expr(Expr::Macro(m), _)) if ["unreachable", "panic"].contains(&path_str(&m.mac.path).as_str()));
+                if ei.else_branch.is_none() && ei.then_branch.stmts.len() == 1 && panics && !has_let(&ei.cond) {
+                    let r = (|| -> Res<(Seq, Ty)> {
+                        let mut pre = if i > 0 { self.block_tail_prefix(&stmts[..i], env)? } else { vec![] };
+                        let (c, _) = self.cond(&ei.cond, env, &mut pre)?;
+                        let (rest, ty) = self.block_val(&stmts[i + 1..], env, expect.clone())?;
+                        Ok((Seq { stmts: pre, tail: Tail::If(c, Box::new(Seq { stmts: vec![], tail: Tail::Panic }), Box::new(rest)) }, ty))
+                    })();
+                    self.ret = saved;
+                    return r;
+                }
+            }
+        }
         // all but last through block_tail-like processing: emulate by translating prefix then last expr
         let (prefix, last) = stmts.split_at(n - 1);
         let res = (|| -> Res<(Seq, Ty)> {
@@ -1157,7 +1181,8 @@ impl<'a> FnTr<'a> {
                     };
                     let ip = self.pat(&ts.elems[0], &inner, env)?;
                     Ok(format!("some {}", paren(&ip)))
-                } else if name == "Err" && matches!(ty, Ty::Opt(_)) && matches!(ts.elems.first(), Some(Pat::Wild(_))) {
+                } else if name == "Err" && matches!(ty, Ty::Opt(_)) && matches!(ts.elems.first(), Some(Pat::Wild(_)) | Some(Pat::Ident(_))) {
+                    // (a bound error value is not put in scope: code that reads it does not translate)
                     // builder N: `Err(_)` of a `Result` translated as an `Option` (the error value is not bound)
                     Ok("none".into())
                 } else {
@@ -1638,6 +1663,30 @@ impl<'a> FnTr<'a> {
                     }
                 }
             }
+            Expr::Struct(s) if s.path.segments.len() >= 2 && self.reg.enum_named.contains_key(&{
+                let n = s.path.segments.len();
+                format!("{}::{}", s.path.segments[n - 2].ident, s.path.segments[n - 1].ident)
+            }) => {
+                // builder N: `Enum::Variant { f: e, .. }`
+                let n = s.path.segments.len();
+                let (en, vn) = (s.path.segments[n - 2].ident.to_string(), s.path.segments[n - 1].ident.to_string());
+                let names = self.reg.enum_named.get(&format!("{}::{}", en, vn)).unwrap().clone();
+                let tys = self.reg.enum_data.get(&en).and_then(|vs| vs.iter().find(|(v, _)| *v == vn)).map(|(_, t)| t.clone()).ok_or("struct-like variant without types")?;
+                if s.rest.is_some() || s.fields.len() != names.len() {
+                    return Err(format!("{}::{}: not all fields given", en, vn));
+                }
+                let mut args = vec![String::new(); names.len()];
+                for fv in &s.fields {
+                    let fname = match &fv.member {
+                        Member::Named(i) => i.to_string(),
+                        _ => return Err("tuple member in a struct-like variant".into()),
+                    };
+                    let k = names.iter().position(|x| *x == fname).ok_or(format!("{}::{} has no field {}", en, vn, fname))?;
+                    let (a, _) = self.ex(&fv.expr, env, st, Some(tys[k].clone()))?;
+                    args[k] = paren(&a);
+                }
+                Ok((format!("({}.{} {})", en, lean_ident(&vn), args.join(" ")), Ty::Named(en)))
+            }
             Expr::Struct(s) => {
                 let name = {
                     let n = path_str(&s.path);
@@ -1668,6 +1717,15 @@ impl<'a> FnTr<'a> {
             }
             Expr::Call(c) => self.call(c, env, st, expect),
             Expr::MethodCall(m) => self.method(m, env, st, expect),
+            Expr::Index(ix) if matches!(&*ix.index, Expr::Range(r) if r.start.is_none() && r.end.is_none()) => {
+                // builder N: `x[..]` — the whole slice
+                let (a, ta) = self.ex(&ix.expr, env, st, expect)?;
+                match ta {
+                    Ty::Arr(_) => Ok((a, ta)),
+                    Ty::HVec(el, _) => Ok((a, Ty::Arr(el))),
+                    _ => Err("`[..]` on a non-slice".into()),
+                }
+            }
             Expr::Index(ix) => {
                 let (a, ta) = self.ex(&ix.expr, env, st, None)?;
                 let (i, _) = self.ex(&ix.index, env, st, Some(Ty::Int("usize")))?;
@@ -1704,7 +1762,7 @@ impl<'a> FnTr<'a> {
                     _ => tv,
                 };
                 let (n, _) = self.ex(&r.len, env, st, Some(Ty::Int("usize")))?;
-                Ok((format!("(List.replicate (Int.toNat {}) {})", paren(&n), paren(&v)), Ty::Arr(Box::new(tv))))
+                Ok((format!("(List.replicate (Int.toNat {}) ({} : {}))", paren(&n), v, tv.lean()), Ty::Arr(Box::new(tv))))
             }
             Expr::Macro(m) => Err(format!("unsupported macro expr {}", path_str(&m.mac.path))),
             _ => Err(format!("unsupported expression: {}", quote::quote!(#e))),
@@ -1782,6 +1840,17 @@ impl<'a> FnTr<'a> {
             let (b, tb) = self.ex(&c.args[1], env, st, Some(ta.clone()))?;
             let t = unify(&ta, &tb)?;
             return Ok((format!("({} {} {})", segs[segs.len() - 1], paren(&a), paren(&b)), t));
+        }
+        // builder N: `NonZeroU8::new(x)`: `Some(x)` iff `x != 0` (the unit aliases the type to its integer)
+        if segs.len() >= 2 && segs[segs.len() - 1] == "new" && segs[segs.len() - 2].starts_with("NonZero") && c.args.len() == 1 {
+            let it = match segs[segs.len() - 2].as_str() {
+                "NonZeroU8" => "u8",
+                "NonZeroU16" => "u16",
+                "NonZeroU32" => "u32",
+                other => return Err(format!("unsupported {}", other)),
+            };
+            let (a, _) = self.ex(&c.args[0], env, st, Some(Ty::Int(it)))?;
+            return Ok((format!("(if decide ({} ≠ 0) then some {} else none)", a, paren(&a)), Ty::Opt(Box::new(Ty::Int(it)))));
         }
         // builder N: `T::from(x)` for a user type with a registered `impl From<uN> for T`
         if segs.len() >= 2 && segs[segs.len() - 1] == "from" && c.args.len() == 1 && int_ty(&segs[segs.len() - 2]).is_none() {
@@ -2051,6 +2120,7 @@ impl<'a> FnTr<'a> {
             }
             // slices / arrays (builder B): `.len()`, `.iter()` (identity), `.find(|e| pure-bool)`
             Ty::Arr(el) => match name.as_str() {
+                "is_empty" => Ok((format!("{}.isEmpty", paren(&r)), Ty::Bool)),
                 "len" => Ok((format!("(Int.ofNat {}.length)", paren(&r)), Ty::Int("usize"))),
                 "iter" => Ok((r, tr.clone())),
                 "find" => {
@@ -2112,6 +2182,9 @@ fn unify(a: &Ty, b: &Ty) -> Res<Ty> {
         (Ty::Int(_), Ty::IntLit) => Ok(a.clone()),
         (Ty::Opt(x), Ty::Opt(y)) => Ok(Ty::Opt(Box::new(unify(x, y)?))),
         _ if a == b => Ok(a.clone()),
+        // builder N: element-wise (an empty slice literal has no element type of its own)
+        (Ty::Arr(x), Ty::Arr(y)) => Ok(Ty::Arr(Box::new(unify(x, y)?))),
+        (Ty::Tuple(xs), Ty::Tuple(ys)) if xs.len() == ys.len() => Ok(Ty::Tuple(xs.iter().zip(ys.iter()).map(|(x, y)| unify(x, y)).collect::<Res<Vec<_>>>()?)),
         _ => Err(format!("type mismatch {:?} vs {:?}", a, b)),
     }
 }
